@@ -408,7 +408,10 @@ for _n, _b in [("BaseException", None), ("Exception", "BaseException"), ("ValueE
                ("ZeroDivisionError", "Exception"), ("StopIteration", "Exception"),
                ("AttributeError", "Exception"), ("AssertionError", "Exception"),
                ("DeprecationWarning", "Exception"), ("UserWarning", "Exception"),
-               ("FileNotFoundError", "Exception"), ("OverflowError", "Exception")]:
+               ("FileNotFoundError", "Exception"), ("OverflowError", "Exception"),
+               # polars exceptions (polars.exceptions.*), as far as the frame contract raises them
+               ("PolarsError", "Exception"), ("ShapeError", "PolarsError"), ("ColumnNotFoundError", "PolarsError"),
+               ("DuplicateError", "PolarsError"), ("SchemaError", "PolarsError"), ("OutOfBoundsError", "PolarsError")]:
     BUILTIN_EXC[_n] = ExcClass(_n, BUILTIN_EXC.get(_b))
 
 
